@@ -28,6 +28,7 @@ def alphabet(quick):
                         continue
                     ops.append(("register", lab, oid, force, weak))
         ops.append(("unregister_obj", lab))
+    ops.append(("unregister_obj", "D"))       # the daemon's own object, handed to unregister as an object
     for oid in ("a", "b", "gen1", DAEMON, "zz"):
         ops.append(("unregister_id", oid))
     for lab in ("o1", "o2"):
@@ -71,6 +72,8 @@ class Model:
             return ("ok", oid)
         if k == "unregister_obj":
             lab = op[1]
+            if lab == "D":
+                return ("ok", None)       # the daemon's own object cannot be unregistered: silently ignored
             if not self.held[lab]:
                 return ("skip", None)
             ids = self.ids_of(lab)
@@ -146,6 +149,9 @@ class World:
                     got = "gen%d" % self.gen
                 return ("ok", got)
             if k == "unregister_obj":
+                if op[1] == "D":
+                    self.d.unregister(self.d.objectsById[DAEMON])
+                    return ("ok", None)
                 if self.pool.get(op[1]) is None:
                     return ("skip", None)
                 self.d.unregister(self.pool[op[1]])
@@ -189,13 +195,23 @@ class World:
             else:
                 d = vars(o)
                 attrs.append((lab, self.norm_id(d.get("_pyroId", "-")) if "_pyroId" in d else "-", "_pyroDaemon" in d, self.pool[lab] is not None))
-        return (tuple(objs), tuple(attrs))
+        # hidden state that decides futures: the finalizers still attached to the pool objects (weak registrations)
+        fins = []
+        for f, info in list(weakref.finalize._registry.items()):
+            o = info.weakref()
+            for lab in ("o1", "o2"):
+                if o is not None and lab in self.refs and o is self.refs[lab]():
+                    fins.append((lab, self.norm_id(info.args[0]) if info.args else "?"))
+        return (tuple(objs), tuple(attrs), tuple(sorted(fins)))
 
 
 def observe(world, model, errors, V, hist, st):
     """compare every observation in this state with the model"""
     d = world.d
     client = world.client
+    if DAEMON not in d.objectsById or getattr(d.objectsById[DAEMON], "_pyroId", None) != DAEMON:
+        V("daemon-object-unregistered-or-damaged", "objectsById has no intact %s entry any more: %r" % (DAEMON, sorted(d.objectsById)), hist)
+        return
     want_ids = set(model.reg) | {DAEMON, "host"}
     got_ids = {world.norm_id(i) for i in d.objectsById[DAEMON].registered()} if not model.unjudged else None
     if got_ids is not None and got_ids != want_ids:
@@ -348,13 +364,13 @@ def expand_task(unit):
 
 
 def run(ctx):
-    depth = 2 if ctx.quick else 3
+    depth = 3 if ctx.quick else 4
     total = Stats()
     sers = ["serpent", "json", "msgpack"]
     seen = {}
     frontier = [[]]
     level = 0
-    cap = 700 if ctx.quick else 6000
+    cap = 3000 if ctx.quick else 12000
     capped = False
     while frontier and level <= depth:
         units = []
